@@ -12,7 +12,10 @@ RULE = ("hist cases: one parser instance (random plugin subset/order, nesting li
         "the history equals the fresh result (tree, HTML, XHTML). Non-trivial = history of >= 2 documents where one defines a "
         "reference or uses backticks; distinct = distinct histories.")
 LEAKY = ["[r]: /leak\n", "[foo]: /leak2 'T'\n\n[foo]", "[r]", "[foo][]", "![r]", "``` `` ` x", "`a ``b ```c", "*a **b", "_x __y", "[r]: /other", "[R]", "[ſ]: /s\n", "[SS]",
-         "xx y xx", "a `b` c `` d", "> [r]: /q\n", "- [r]: /l\n\n[r]", "[r]\n\n[r]: /late"]
+         "xx y xx", "a `b` c `` d", "> [r]: /q\n", "- [r]: /l\n\n[r]", "[r]\n\n[r]: /late",
+         # destinations that differ only in the spelling of the scheme / host (any memo of normalised links must not leak)
+         "[a](HTTP://example.com/X) <HTTP://EXAMPLE.com/y>", "[a](http://example.com/X) <http://EXAMPLE.com/y>", "[r]: HTTPS://q.r/Z\n\n[r]", "[r]: https://q.r/Z\n\n[r]",
+         "![i](MAILTO:a@b.c) [j](Data:image/png;base64,AA)", "![i](mailto:a@b.c) [j](data:image/png;base64,AA)", "[k](/P%41TH) [l](/p%41th)", "[k](/PaTH) [l](/path)"]
 
 
 STOPS = "\n!#$%&*+-:<=>@[\\]^_`{}~"
@@ -40,6 +43,20 @@ def cases(rng, tier, Case):
             script = "+%s;" % cfg + ";".join("P" + hx(d) for d in docs)
             res.append(Case("hist 100 TR %s" % script, "history", {"cfg": cfg, "nest": 100, "docs": [hx(d) for d in docs]},
                             compare=first in COLLIDERS))
+    # a parser that is reconfigured after it has parsed: same result as a fresh parser given the same add/remove calls
+    RECONF = ["+s", "+3", "+4", "+8", "+x", "+S", "-m", "-M", "-a", "-x", "-l", "-E", "-3", "-b", "-s", "+1", "-H", "-p;+p", "+m", "-t"]
+    for _ in range(n):
+        cfg = rng.choice(["C", "C3", "C34", "CW3", "C8", "nebp3", mdgen.gen_cfg(rng) + "3"])
+        steps = ["+" + cfg]
+        conf = ["+" + cfg]
+        for _k in range(rng.choice([1, 2, 3])):
+            for _j in range(rng.choice([1, 2])):
+                steps.append("P" + hx(rng.choice(LEAKY + [PROBE])))
+            r_ = rng.choice(RECONF)
+            steps.append(r_)
+            conf.append(r_)
+        last = hx(PROBE + "\n\nxx ~~s~~ % p % <b>q</b> " + rng.choice(LEAKY))
+        res.append(Case("hist 100 TR %s" % ";".join(steps + ["P" + last]), "reconf", {"fresh": "hist 100 TR %s" % ";".join(conf + ["P" + last])}))
     for _ in range(n):
         cfg = mdgen.gen_cfg(rng) + rng.choice(["", "3", "34"])
         nest = rng.choice([100, 100, 3])
@@ -53,6 +70,8 @@ def cases(rng, tier, Case):
 
 
 def followup(case, io, Case):
+    if case.tag == "reconf":
+        return [Case(case.params["fresh"], "reconf-fresh", {"parent": case.line, "k": -1, "cfg": "-"}, compare=case.compare)]
     if case.tag != "history":
         return []
     p = case.params
@@ -76,13 +95,18 @@ def split_hist(io):
 def oracle(case, io, mo):
     if not io.startswith("ok"):
         return "did not return normally: " + io[:120]
-    if case.tag == "history":
+    if case.tag in ("history", "reconf"):
         _hist[case.line] = split_hist(io)
         return None
     reps = _hist.get(case.params["parent"])
     if reps is None:
         return None
     k = case.params["k"]
+    if k == -1:
+        mine = split_hist(io)
+        if project(reps[-1]) != project(mine[-1]):
+            return "a parser reconfigured after parsing gives a different result from a fresh parser given the same add/remove calls"
+        return None
     if k >= len(reps):
         return "history produced fewer results than documents"
     if project(reps[k]) != project(io):
@@ -91,7 +115,7 @@ def oracle(case, io, mo):
 
 
 def nontrivial(case, io):
-    return case.tag == "history"
+    return case.tag in ("history", "reconf")
 
 
 def known_match(k, case, io, msg):
